@@ -32,3 +32,95 @@ Theorem C06_deref_outcomes :
   wf coll h' = true /\ flags h' = flags h /\ (forall j t, link_of h j = Some t -> link_of h' j = Some t).
 Proof. exact deref_total. Qed.
 Print Assumptions C06_deref_outcomes.
+
+(* GriffeLoader.resolve_aliases(implicit=True, external=False) on every well-formed heap: the while loop stops within
+   #aliases+2 passes, the tree recursion of resolve_module_aliases and all nested dereferencing return (EFuel
+   excluded), flags restored, stored links untouched.  The only exceptions that can leave the call are the two alias
+   errors (raised by the eager `member.final_target.path` of a debug message); no such escape was ever observed. *)
+Theorem C06_resolve_aliases_terminates :
+  forall coll h,
+  wf coll h = true ->
+  let h' := fst (resolve_aliases coll h) in
+  let r := snd (resolve_aliases coll h) in
+  ((exists u it, r = Ok (u, it)) \/ (exists q, r = Err (EARE q)) \/ r = Err ECyc) /\
+  wf coll h' = true /\ flags h' = flags h /\ (forall j t, link_of h j = Some t -> link_of h' j = Some t).
+Proof. exact resolve_aliases_total. Qed.
+Print Assumptions C06_resolve_aliases_terminates.
+
+(* FULL STATEMENT of all-or-nothing ("a chain is never left partially resolved"):
+     forall coll h i, wf coll h = true -> i unresolved ->
+       resolve_target either resolves i with every stored chain complete, or fails leaving the heap as it was.
+   It is FALSE of the unchanged code.  Two refutations (heaps abstracted from real packages, replayed on the
+   implementation on every run as known findings C06-F4 and C06-F3): *)
+Theorem C06_all_or_nothing_refuted_passthrough :
+  exists coll h i,
+    wf coll h = true /\ no_passed h = true /\ unique_paths h = true /\ chains_complete h = true /\
+    snd (resolve_top coll h i) = Err (EARE "p.b.x"%string) /\
+    link_of h i = None /\ link_of (fst (resolve_top coll h i)) i = Some (RVirt "p.m.x"%string 5) /\
+    chains_complete (fst (resolve_top coll h i)) = false.
+Proof. exact all_or_nothing_refuted_passthrough. Qed.
+Print Assumptions C06_all_or_nothing_refuted_passthrough.
+
+Theorem C06_all_or_nothing_refuted_preresolved :
+  exists coll h i,
+    wf coll h = true /\ no_passed h = true /\ unique_paths h = true /\ direct coll h = true /\
+    snd (resolve_top coll h i) = Err (EARE "p.a.x"%string) /\
+    link_of h i = None /\ link_of (fst (resolve_top coll h i)) i = Some (RReal 7).
+Proof. exact all_or_nothing_refuted_preresolved. Qed.
+Print Assumptions C06_all_or_nothing_refuted_preresolved.
+
+(* The strongest true statement: modulo KnownGap_passthrough (direct = false: some target path runs through an alias
+   member or a virtual link is stored) and KnownGap_preresolved (chains_complete = false: some stored link does not
+   lead to an object), for heaps of any size and shape (cycles, dangling targets, self imports, flags raised). *)
+Theorem C06_all_or_nothing_modulo_known :
+  forall coll h i p tp pa w,
+  wf coll h = true -> direct coll h = true -> chains_complete h = true -> unique_paths h = true ->
+  nth_error h i = Some (NAlias p tp None pa w) ->
+  let h' := fst (resolve_top coll h i) in
+  let r := snd (resolve_top coll h i) in
+  (r = Ok tt /\ resolved_in h' i /\ wf coll h' = true /\ direct coll h' = true /\ chains_complete h' = true /\
+   unique_paths h' = true /\ flags h' = flags h) \/
+  (exists e, r = Err e /\ h' = h).
+Proof. exact all_or_nothing_modulo_known. Qed.
+Print Assumptions C06_all_or_nothing_modulo_known.
+
+(* where stored chains are complete, every resolved alias dereferences, without any mutation, to a real object *)
+Theorem C06_resolved_means_dereferenceable :
+  forall coll h i p tp t pa w,
+  chains_complete h = true -> nth_error h i = Some (NAlias p tp (Some t) pa w) ->
+  exists o, deref_top coll h i = (h, Ok o) /\ exists po c ms, nth_error h o = Some (NObj po c ms).
+Proof. exact complete_deref. Qed.
+Print Assumptions C06_resolved_means_dereferenceable.
+
+(* FULL STATEMENT of the fixpoint ("resolving again is a no-op"):
+     forall coll h, wf coll h = true -> resolve_aliases (fst (resolve_aliases h)) returns the same set and heap.
+   FALSE of the unchanged code for the return value (consequence of C06-F3): *)
+Theorem C06_fixpoint_refuted :
+  exists coll h,
+    wf coll h = true /\ no_passed h = true /\ unique_paths h = true /\ direct coll h = true /\
+    snd (resolve_aliases coll h) = Ok (["p.c.x"; "p.a.x"]%string, 2) /\
+    snd (resolve_aliases coll (fst (resolve_aliases coll h))) = Ok (["p.a.x"%string], 2).
+Proof. exact fixpoint_refuted. Qed.
+Print Assumptions C06_fixpoint_refuted.
+
+(* PARTIAL: what is proved is the conditional form - once one pass over the collection changes nothing,
+   resolve_aliases is a no-op returning that pass' unresolved set within 2 iterations.  Missing: that on heaps free of
+   the two known gaps the last pass of the first call is such a quiet pass (needs "a failed resolve_target keeps
+   failing after more links are stored"); the harness checks the model's own second call on every explored heap. *)
+Theorem C06_fixpoint_partial :
+  forall coll h u,
+  one_pass coll h = (h, Ok u) ->
+  exists it, resolve_aliases coll h = (h, Ok (u, it)) /\ it <= 2.
+Proof. exact fixpoint_after_quiet_pass. Qed.
+Print Assumptions C06_fixpoint_partial.
+
+(* non-vacuity: a heap satisfying every hypothesis above, on which all three outcome classes occur *)
+Theorem C06_hypotheses_satisfiable :
+  wf w_plain_coll w_plain_heap = true /\ direct w_plain_coll w_plain_heap = true /\
+  chains_complete w_plain_heap = true /\ unique_paths w_plain_heap = true /\ no_passed w_plain_heap = true /\
+  snd (resolve_top w_plain_coll w_plain_heap 1) = Ok tt /\
+  snd (resolve_top w_plain_coll w_plain_heap 5) = Err ECyc /\
+  snd (resolve_top w_plain_coll w_plain_heap 7) = Err (EARE "p.z"%string) /\
+  snd (resolve_aliases w_plain_coll w_plain_heap) = Ok (["p.z"%string], 2).
+Proof. exact hypotheses_satisfiable. Qed.
+Print Assumptions C06_hypotheses_satisfiable.
